@@ -12,7 +12,7 @@ def obligations(tier):
         for ch in ((2,) if tier == 'quick' else (1, 2)):
             obls.append(create_obl(1, kind, ch))
     if tier == 'thorough':
-        obls += [create_obl(1, 0, 2), create_obl(1, 1, 2), create_obl(1, 2, 2, orate='0.0')]
+        obls += [create_obl(1, 0, 2), create_obl(1, 1, 2), create_obl(1, 3, 2, orate='0.0')]
     obls += [create_obl(1, 2, 2, orate='0.0'), create_obl(1, 8, 1, orate='0.0')]
     # engine side, quick recipe: every allocation of the real _soxr_init may fail (cbmc --malloc-may-fail): the stage array is checked,
     # the FIFO allocations are not (known finding; excluded in the first obligation, re-found by the probe)
